@@ -256,10 +256,7 @@ RECURSIVE BlockEnd(_, _)
 BlockEnd(prog, k) == IF k > Len(prog) THEN Len(prog) ELSE IF prog[k].n.k \in {".end", ".orig"} THEN k - 1 ELSE BlockEnd(prog, k + 1)
 BlockLen(prog, o) == SumSizes(prog, o + 1, BlockEnd(prog, o + 1))
 
-\* every label definition: <<key, addr, ext, stmt index>>
-LabelDefs(prog) ==
-       { <<Upper(prog[k].labels[i].name), AddrOf(prog, k), FALSE, k>> : k \in 1..Len(prog), i \in 1..3 }
-       \* (at most 3 labels per statement in the universes used; see LabelDefsN)
+\* every label definition: <<key, addr (-1 outside a block), external>>
 LabelDefsN(prog) ==
   UNION { { <<Upper(prog[k].labels[i].name), IF OpenBefore(prog, k) THEN AddrOf(prog, k) ELSE -1, FALSE>> : i \in 1..Len(prog[k].labels) } : k \in 1..Len(prog) }
   \cup { <<Upper(prog[k].n.lbl), 0, TRUE>> : k \in { k \in 1..Len(prog) : prog[k].n.k = ".external" } }
